@@ -383,6 +383,15 @@ fn fd_adapters(ctx: &Ctx, thorough: bool) -> Vec<String> {
                 wb.write_all(&data).unwrap();
                 drop(wa);
                 drop(wb);
+                // wait until all 9 bytes (and the FIN) are queued on both sockets, so that the
+                // comparison does not depend on delivery timing
+                for sock in [&a, &b] {
+                    let mut tmp = [0u8; 16];
+                    let t0 = std::time::Instant::now();
+                    while sock.peek(&mut tmp).unwrap_or(0) < 9 && t0.elapsed().as_secs() < 5 {
+                        std::thread::sleep(std::time::Duration::from_millis(1));
+                    }
+                }
                 std::thread::sleep(std::time::Duration::from_millis(2));
                 drive_reader(&rep, 9, 0, seq, &mut a, &mut b, &|_, _| (String::new(), String::new()));
                 let rep = Rep { ctx, adapter: "TcpStream(write)" };
